@@ -329,7 +329,7 @@ EXTRA = [b'x=1 -- c\ny=2\n', b'x=1 // c\ny=2\n', b'if (a) b=1 -- c\nc=2\n', b'if
 
 def shards(tier, seed):
     items = c08.program_shards(tier, seed, tag='c01')
-    items += [('extra',), ('cli', tier)] + [('stringpairs', k, 4) for k in range(4)]
+    items += [('extra',), ('cli', tier)] + [('stringpairs', k, 4) for k in range(4)] + [('stringbytes', k, 8) for k in range(8)]
     return items
 
 
@@ -377,6 +377,25 @@ def run_shard(item):
                 for src in (b'x=' + a + b' y=' + b + b'\n', b'f(' + a + b',' + b + b')\n'):
                     run_one(None, src, CONFIGS[n % 3], res, 'extra')
         res.sample({'family': 'stringpairs', 'src': b"x='say \"hi\"' y=\"say \\\"hi\\\"\"\n"})
+    elif kind == 'stringbytes':
+        # every byte value in a quoted string: raw (where a raw byte is legal) and as a decimal / hex escape, in both
+        # quote kinds, followed by a digit, a letter, or the closing quote (the minifier re-spells string literals)
+        n = 0
+        for b in range(0, 256):
+            spellings = [b'\\%d' % b, b'\\%03d' % b, b'\\x%02x' % b]
+            if b not in (0, 10, 13, 34, 39, 92):
+                spellings.append(bytes([b]))
+            for sp in spellings:
+                for q in (b'"', b"'"):
+                    for tail in (b'', b'7', b'z'):
+                        n += 1
+                        if n % item[2] != item[1]:
+                            continue
+                        if len(sp) > 1 and sp[1:2].isdigit() and len(sp) < 4 and tail == b'7':
+                            continue        # '\\5' + '7' would read as '\\57'
+                        src = b'x=' + q + b'p' + sp + tail + q + b' y=2\n'
+                        run_one(None, src, CONFIGS[n % 3], res, 'extra')
+        res.sample({'family': 'stringbytes', 'src': b'x="p\\0207" y=2\n'})
     elif kind == 'cli':
         cli_batch(res, item[1])
     return res
